@@ -94,6 +94,28 @@ pub fn build(rng: &mut Rng, i: usize) -> PDB {
         }
         k += 1;
     }
+    // one value just outside its columns: the validation has to report it (a structure it is silent about is judged by the round trip)
+    if rng.chance(1, 5) {
+        let n = pdb.atom_count().max(1);
+        let at = rng.below(n);
+        let which = rng.below(8);
+        if let Some(a) = pdb.atoms_mut().nth(at) {
+            let (x, y, z) = a.pos();
+            let low = *rng.pick(&[-1000.0, -999.9996, -1234.5]);
+            let high = *rng.pick(&[10000.0, 9999.9996, 12345.678]);
+            match which {
+                0 => drop(a.set_x(low)),
+                1 => drop(a.set_y(low)),
+                2 => drop(a.set_z(low)),
+                3 => drop(a.set_x(high)),
+                4 => drop(a.set_y(high)),
+                5 => drop(a.set_z(high)),
+                6 => drop(a.set_occupancy(*rng.pick(&[1000.0, 999.996]))),
+                _ => drop(a.set_b_factor(*rng.pick(&[1000.0, 999.996]))),
+            }
+            let _ = (x, y, z);
+        }
+    }
     // residue names with leading zeros, modifications
     let n_conf = pdb.model(0).map_or(1, Model::conformer_count).max(1);
     // MODRES names a residue, not one of its conformers: only residues with a single conformer get a modification
